@@ -50,9 +50,12 @@ static void sequences(std::mt19937 & rng)
     int op = rng() % 4;
     if (op == 0) {
       ce.timeout(); cg.timeout(); cl.timeout();
-      for (const DiagnosticReport * r : {&ce.getReport(), &cg.getReport(), &cl.getReport()})
+      const DiagnosticReport reps[3] = {ce.getReport(), cg.getReport(), cl.getReport()};    // by value or by reference, whichever the tree returns
+      for (const DiagnosticReport & rr : reps) {
+        const DiagnosticReport * r = &rr;
         if (r->diagnostics.front().status != DiagnosticStatus::STALE || r->diagnostics.front().message != "q timeout." || r->info.begin()->second != "")
           FAIL("sequence step %d: after timeout() status=%d message='%s' info='%s'", s, (int)r->diagnostics.front().status, r->diagnostics.front().message.c_str(), r->info.begin()->second.c_str());
+      }
     } else {
       double v = (have && rng() % 2) ? last : vals[rng() % 7];
       last = v; have = true;
